@@ -344,10 +344,10 @@ fn sensitivity(ctx: &mut Ctx) {
 pub fn meta(tier: &str) -> Meta {
     Meta {
         level: "model_checking",
-        rule: "every ordered PSK list of 1..3 entries over {e1, e2, resumption(r), r=0..5} (70 lists) x by value / by reference x every assignment {same, other, absent} of e1 and e2 to receiver B (all 9), receiver C and Welcome joiner D (all 9 each in thorough, 3 each in quick), on forks of one base world with staggered join epochs and a retention window; expected outcome per party computed by the reference predicate 'holds the committer's value for every listed PSK / still resolves the referenced epoch'; refusing parties are compared with their pre-state (hook H1); accepting ones with the committer; plus sensitivity of all derived epoch secrets to value/id/nonce/order of one PSK; states = cases".into(),
+        rule: "every ordered PSK list of 1..3 entries over {e1, e2, resumption(r), r=0..5} (70 lists) x by value / by reference x every assignment {same, other, absent} of e1 and e2 to receiver B (all 9), receiver C and Welcome joiner D (all 9 each in thorough, 3 each in quick), on forks of one base world with staggered join epochs and a retention window; expected outcome per party computed by the reference predicate 'holds the committer's value for every listed PSK / still resolves the referenced epoch'; refusing parties are compared with their pre-state (hook H1); accepting ones with the committer; plus sensitivity of all derived epoch secrets to value/id/nonce/order of one PSK; plus, for every committer and every epoch number 0..7, a by-value resumption PSK that names another group id (hand-encoded, CommitBuilder::raw_proposal): the commit must not be buildable whether the committer holds that epoch number of its own group stored, un-flushed, as the current epoch or not at all, and if built nobody may follow it; states = cases".into(),
         assumptions: default_assumptions(),
         bounds: bounds_json(&[("cases", json!(cases(tier).len())), ("psk_lists", json!(lists().len()))]),
-        required_goals: vec![],
+        required_goals: vec!["foreign-group-resumption-psk"],
         min_outcomes: 6,
         workers: 16,
     }
@@ -372,6 +372,106 @@ pub fn run(ctx: &mut Ctx) {
     }
     if ctx.shard.0 == 0 {
         sensitivity(ctx);
+    }
+    if ctx.shard.0 == 1 % ctx.shard.1 {
+        foreign_group_resumption(&base, ctx);
+    }
+}
+
+/// A resumption PSK (usage application) that names ANOTHER group id and an epoch number the
+/// member happens to hold for its own group -- stored, un-flushed or current. Nobody holds a
+/// secret of that other group, so the committer must not be able to build the commit, and if
+/// one is built nobody may follow it. (The PSK proposal is hand-encoded and handed to
+/// `CommitBuilder::raw_proposal`; the public builders only name the own group.)
+fn foreign_group_resumption(base: &World, ctx: &mut Ctx) {
+    use mls_rs::group::proposal::Proposal;
+    use mls_rs_codec::MlsDecode;
+    let nh = Suite(1).nh();
+    for committer in [A, B, C] {
+        for r in 0..=7u64 {
+            let mut w = base.clone();
+            let label = format!("resumption PSK of group 'some-other-group' epoch {r}, by value, committer {}", w.parties[committer].name);
+            ctx.cur_trail = vec![label.clone()];
+            // Proposal: type psk(4); PreSharedKeyID: psktype resumption(2), usage application(1),
+            // psk_group_id, psk_epoch, psk_nonce
+            let mut bytes = vec![0u8, 4, 2, 1];
+            put_vbytes(&mut bytes, b"some-other-group");
+            bytes.extend_from_slice(&r.to_be_bytes());
+            put_vbytes(&mut bytes, &vec![0x5a; nh]);
+            let Ok(prop) = Proposal::mls_decode(&mut &*bytes) else { crate::engine::machinery("C18: hand-encoded PSK proposal does not decode") };
+            let where_held = if r == 7 {
+                "current-epoch"
+            } else if !has_epoch(committer, r) {
+                "epoch-not-held"
+            } else {
+                match (committer, r) {
+                    (A, 5 | 6) | (B, 6) | (C, _) => "epoch-unflushed",
+                    _ => "epoch-stored",
+                }
+            };
+            let table = std::mem::take(&mut w.stores);
+            stores::install(table);
+            let res = std::panic::catch_unwind(std::panic::AssertUnwindSafe(|| {
+                let pre: Vec<_> = [A, B, C].iter().map(|p| effective(w.g(*p), *p as u32)).collect();
+                ctx.eval();
+                let now = w.now();
+                let mut b = w.gm(committer).commit_builder().raw_proposal(prop.clone());
+                if let Some(t) = now {
+                    b = b.commit_time(t);
+                }
+                match b.build() {
+                    Err(e) => {
+                        ctx.outcome(format!("foreign-group-psk:{where_held}:build-refused:{}", err_name(&e)));
+                        ctx.goal("foreign-group-resumption-psk");
+                    }
+                    Ok(out) => {
+                        ctx.goal("foreign-group-resumption-psk");
+                        ctx.violation(
+                            format!("psk-commit-built-without-psk|resumption-psk-of-another-group|{where_held}"),
+                            format!("the committer built a commit over a resumption PSK of a group it is not in (it resolved (other group, epoch {r}) to a secret of its own group) [{label}]"),
+                        );
+                        let mut verdicts = vec![];
+                        for (pi, &p) in [A, B, C].iter().enumerate() {
+                            if p == committer {
+                                continue;
+                            }
+                            ctx.eval();
+                            match w.process(p, &out.commit_message) {
+                                Ok(_) => {
+                                    verdicts.push((p, true));
+                                    ctx.violation(
+                                        "psk-commit-accepted-without-psk|resumption-psk-of-another-group",
+                                        format!("{} followed a commit whose resumption PSK names a group it is not in [{label}]", w.parties[p].name),
+                                    );
+                                }
+                                Err(e) => {
+                                    verdicts.push((p, false));
+                                    ctx.outcome(format!("foreign-group-psk:receiver-refuses:{}", err_name(&e)));
+                                    let post = effective(w.g(p), p as u32);
+                                    let d = diff(&pre[pi], &post, &[]);
+                                    if !d.is_empty() {
+                                        ctx.violation(format!("refused-psk-commit-changed-state|{}|{}", err_name(&e), diff_classes(&d)), format!("{d:?} [{label}]"));
+                                    }
+                                }
+                            }
+                        }
+                        if verdicts.iter().any(|v| v.1) && verdicts.iter().any(|v| !v.1) {
+                            ctx.violation("psk-commit-splits-the-group|resumption-psk-of-another-group", format!("honest members disagree on the commit depending on when they last wrote: {verdicts:?} [{label}]"));
+                        }
+                    }
+                }
+            }));
+            let _ = stores::uninstall();
+            ctx.report.transitions += 1;
+            if res.is_err() {
+                let (loc, msg, lib) = take_panic();
+                if lib {
+                    ctx.violation(format!("panic|{loc}"), format!("library panicked: {msg} [{label}]"));
+                } else {
+                    crate::engine::machinery(&format!("harness panic at {loc}: {msg}"));
+                }
+            }
+        }
     }
 }
 
